@@ -15,4 +15,6 @@ if [ -n "$OLD" ]; then
   done
   cp $OLD/*.patch $OLD/*.diff $W/ 2>/dev/null || true
 fi
+# baseline commit inside the workspace copy, so the builder can deliver `git diff` / `git status` against it
+(cd $W/verif && git init -q 2>/dev/null && git add -A >/dev/null 2>&1 && git -c user.name=ws -c user.email=ws@example.invalid commit -qm baseline >/dev/null 2>&1) || true
 echo "workspace $W ready"
